@@ -88,6 +88,13 @@ Fixpoint check_invs (l : list inv) (obs : list (bool * nat * nat * list command)
   | _, _ => false
   end.
 
+(* ---------- selector 4: Commands with foreign / malformed targets through the informer filter ---------- *)
+Definition dDcmd : dec dcmd :=
+  let* k := dZ in let* v := dZ in let* ns := dZ in let* n := dZ in let* a := dZ in
+  ret (mkDcmd (if k =? 0 then None else Some (k, v)) ns n a).
+Definition eObs (x : nat * bool) : list Z := [Z.of_nat (fst x); if snd x then 1 else 0].
+Definition dObs1 : dec (nat * bool) := let* n := dNat in let* p := dBool in ret (n, p).
+
 Definition entry (sel : Z) (toks : list Z) : list Z :=
   match sel with
   | 1 => match run_dec dCli toks with
@@ -111,6 +118,15 @@ Definition entry (sel : Z) (toks : list Z) : list Z :=
                           let* _ := dZ in let* rq := dList dReq4 in ret (snd ri, obs, rq)) toks with
            | Some (invs, obs, rq) =>
                eBool (check_invs invs obs && law_e2e (map (fun o => snd o) obs) rq)
+           | None => bad_input end
+  | 4 => match run_dec (dList dDcmd) toks with
+         | Some l => let '(obs, jr, qr) := informer_run l in
+                     eList eObs obs ++ [-101] ++ eList eReq jr ++ [-102] ++ eList eReq qr
+         | None => bad_input end
+  | 104 => match run_dec (let* l := dList dDcmd in let* obs := dList dObs1 in let* _ := dZ in
+                          let* jr := dList dReq in let* _ := dZ in let* qr := dList dReq in
+                          ret (l, obs, jr, qr)) toks with
+           | Some (l, obs, jr, qr) => eBool (law_filter l obs jr qr)
            | None => bad_input end
   | 101 => match run_dec (let* i := dCli in let* cs := dList dCmd in ret (i, cs)) toks with
            | Some ((v, ns, t), cs) => eBool (law_cli v ns t cs)
